@@ -510,6 +510,21 @@ def apply_op(sess, op, trace, observe=True, prev=None):
     return st
 
 
+def expand_ops(ops):
+    """['burst', i, n, j] = n calls alternating pool entries i and j (hits once resident):
+    the way to push the LRU usage queue past its compaction threshold"""
+    out = []
+    for op in ops:
+        if op[0] == 'burst':
+            i, n = op[1], op[2]
+            j = op[3] if len(op) > 3 else i
+            for t in range(n):
+                out.append(['call', i if t % 2 == 0 else j, 0, 0])
+        else:
+            out.append(op)
+    return out
+
+
 def run_history(case, root=None, ops=None):
     """build the decorated function of `case` and apply its ops; returns Trace"""
     cfg = case
@@ -528,7 +543,7 @@ def run_history(case, root=None, ops=None):
             return tr
         tr.fn, tr.f, tr.cache = sess.fn, sess.f, sess.cache
         prev = None
-        for op in (ops if ops is not None else cfg['ops']):
+        for op in expand_ops(ops if ops is not None else cfg['ops']):
             prev = apply_op(sess, op, tr, prev=prev)
         _close(sess.cache)
         return tr
